@@ -342,6 +342,16 @@ struct Runner {
     return true;
   }
 
+  // comparison with the model that records nothing (used to refine the attribution of an already recorded violation)
+  bool soft_equal(Slot &s) {
+    VecObs o = s.type->observe(s.obj);
+    if (o.size > o.capacity || o.size > (1u << 20)) return false;
+    std::vector<Val> got;
+    std::string err;
+    if (!s.type->snapshot(s.obj, got, err)) return false;
+    return got == s.model;
+  }
+
   void check_inline(Slot &s) {
     if (!s.mustInline || G.viol.set()) return;
     const VecType &t = *s.type;
@@ -496,6 +506,8 @@ struct Runner {
       }
       case V_INSERT_RANGE: case V_APPEND_RANGE: {
         size_t add = pick_count(0);
+        // a range longer than the size_type itself can count (its length wraps when narrowed): must still be refused
+        if (wantOvershoot && argMax <= 255 && ((op.n >> 24) & 3) == 0) add = 256 + (op.n >> 26) % 8;
         if (!fit(add, 0)) return false;
         io.pos = op.kind == V_INSERT_RANGE ? pick_pos(sz) : sz; gen_vals(add);
         return true;
@@ -679,7 +691,16 @@ struct Runner {
         return true;
       }
       case V_FILL_TO_LIMIT_MINUS: {
-        if (!reachable) return false;
+        if (!reachable) {
+          // a partner for the narrow size_types of the family: more elements than an 8-bit size_type can count
+          bool narrow = false;
+          for (const VecType *u : fam.types) narrow = narrow || (u->limit <= 255 && u->flavour != FL_FIXED);
+          if (!narrow || t.limit < 300) return false;
+          size_t target = 256 + op.n % 6;
+          if (target <= sz) return false;
+          gen_vals(target - sz);
+          return true;
+        }
         size_t k = op.n % 4;
         size_t target = t.limit > k ? (size_t)t.limit - k : 0;
         if (target <= sz) return false;
@@ -987,6 +1008,12 @@ struct Runner {
         modelApplied = false;  // state must be unchanged
       }
     }
+    // ---- an element life-cycle violation inside this call: does the visible result differ from std::vector as well?
+    // (decides whether the container-behaviour property is implicated in addition to C02)
+    if (G.viol.set() && G.viol.kind == VK_ELEM && G.viol.opIndex == idx && res.outcome == OUT_RETURNED && !expectThrow && io.kind != V_RELOCATE) {
+      apply_model(io, s, w, exp);
+      if (!soft_equal(s) || (w && !soft_equal(*w))) G.viol.props |= G.baseProps;
+    }
     // ---- after an injected fault: strong / basic guarantee (C09)
     if (!G.viol.set() && threwFault) {
       bool atEnd = io.pos == sz0;
@@ -1078,7 +1105,7 @@ struct Runner {
       }
       if (t.flavour != FL_SMALL) s.mustInline = false;
       // a failed growth attempt beyond N may legitimately have moved to the heap already (capacity is not rolled back)
-      if (threw && !threwLimit) s.mustInline = false;
+      if (threw && io.kind != V_AT_OOR) s.mustInline = false;  // incl. a single-pass range that grew the vector element by element before it hit the limit
       if (threw && io.kind == V_SWAP2) { s.mustInline = false; w->mustInline = false; }
       if (s.model.size() > t.N) s.mustInline = false;
       if (w && w->model.size() > w->type->N) w->mustInline = false;
